@@ -119,6 +119,17 @@ def families():
             t.append("ldi r16, " + ch + "+(" * n + "1" + ")" * n + "\n")
             t.append(".db " + ch + ", " + "-(1+" * n + "1" + ")" * n + "\n")
         t.append(".db \"" + "(" * n + "\", " + "(" * n + "1" + ")" * n + "\n")
+    # lines of a branch that is passed over: indented, with colons, with text no grammar takes, with multi-byte characters
+    for indent in ("", " ", "\t", "        ", " \t  ", "\u00a0", "\x0c"):
+        for body in ("foo: ?", "x:", ": :", "é: .if 1", "lbl: .endif ?", ".if @0 ; note: x", "a b c: d", ".else: x", "\u20ac\u20ac: ?", ".endif", "#endif :", "l1: l2: .if", "::::"):
+            t.append(".if 0\n" + indent + body + "\n.endif\nnop\n")
+            t.append(".if 1\nnop\n.else\n" + indent + body + "\n" + indent + ".endif\nret\n")
+            t.append(".ifdef NOPE\n.macro m\n" + indent + body + "\n.endm\n.endif\nsleep\n")
+    # functions of negative, zero and extreme values, where lines are assembled and where conditions are read
+    for f in ("low", "high", "byte2", "byte3", "byte4", "lwrd", "hwrd", "page", "exp2", "log2", "abs", "nosuchfn"):
+        for a in ("-1", "0", "1", "-128", "1<<63", "(1<<63)-1", "-(1<<62)", "63", "64", "-64", "size - 4"):
+            t.append(".equ size = 3\nldi r16, %s(%s) & 0\n.dw %s(%s) & 0\n" % (f, a, f, a))
+            t.append(".equ size = 3\n.if %s(%s) > 8\nnop\n.endif\n.dseg\n.byte %s(%s) & 3\n" % (f, a, f, a))
     # prefix operators spread over names, parentheses and character constants; long subtractions of character constants (legal)
     for n in (4, 16, 64, 200):
         for k in (3, 20, 62):
